@@ -1,6 +1,7 @@
 import AbraModel.Drv.Util
 import AbraModel.Drv.I64
 import AbraModel.Drv.GC
+import AbraModel.Drv.GCPacing
 import AbraModel.Drv.Arena
 import AbraModel.Drv.IdSet
 import AbraModel.Drv.Marshal
@@ -38,6 +39,7 @@ def dispatch (line : String) : String :=
   | [] => "bad-op"
   | "i64" :: rest => handleI64 rest
   | "gc" :: rest => handleGC rest
+  | "gcp" :: rest => handleGCP rest
   | "arena" :: rest => handleArena rest
   | "idset" :: rest => handleIdSet rest
   | "marshal" :: rest => handleMarshal rest
